@@ -1,6 +1,7 @@
 import PolyVerif.Lemmas.DeBruijn
 import PolyVerif.Lemmas.Barcodes
 import PolyVerif.Props.C17Big
+import PolyVerif.Props.C11
 /-
 C17 — De Bruijn barcodes are unique, non-overlapping in n-mers and ban-free.
 
@@ -21,7 +22,8 @@ C17 — De Bruijn barcodes are unique, non-overlapping in n-mers and ban-free.
     that passes the checker): the call returns (no panic, both loops terminate); every barcode is
     a piece of `db` of exactly the requested length; no n-letter word occurs in two barcodes (so
     the barcodes are pairwise different); no barcode contains a ban or the reverse complement of
-    one; every filter accepts every barcode.
+    one (also for the independent code-set reverse complement: `barcodes_ban_free_spec`, through Props/C11
+    `rc_spec`); every filter accepts every barcode.
 -/
 namespace PolyVerif.Props.C17
 open PolyVerif PolyVerif.DeBruijn PolyVerif.Spec PolyVerif.Transform
@@ -168,6 +170,17 @@ theorem barcodes_ban_free (hl : n ≤ len) {bs : List Str}
   have := hr.1 ban hban
   simp only [contains_iff_infix] at this
   exact this
+
+/-- the same law with the INDEPENDENT reverse complement (reverse the ban, replace every letter by the
+code of the complementary base set — Spec/Nucleotide), for bans over the IUPAC codes: `barcodes_ban_free`
+speaks of `Transform.revComp`, which reads the complement table regenerated from the code; Props/C11
+`rc_spec` (re-decided on that table on every run) says the two agree, so a wrong table breaks this theorem -/
+theorem barcodes_ban_free_spec (hl : n ≤ len) {bs : List Str}
+    (h : barcodesOn db len n bans filters = .ok bs) (hb : ∀ ban ∈ bans, C11.Iupac ban) :
+    ∀ b ∈ bs, ∀ ban ∈ bans, ¬ ban <:+: b ∧ ¬ (ban.reverse.map complCode) <:+: b := by
+  intro b hbm ban hban
+  have := barcodes_ban_free hl h b hbm ban hban
+  rwa [C11.rc_spec (hb ban hban)] at this
 
 /-- every filter accepts every barcode -/
 theorem barcodes_filters (hl : n ≤ len) {bs : List Str}
